@@ -43,9 +43,17 @@ Renderings ==
             /\ ((rk.t = r0.t /\ rk.out = r0.out) \/ Fail("spec-not-invariant"))
             /\ JudgeObs(rk, E.obs[k], IF k = 1 THEN "" ELSE ":rendering")
 
+\* C02: the claimed final state of a successful assembly is certified
+Cert ==
+    LET c == Certificate(E.prog, E.claim) IN
+    IF c = "" THEN TRUE
+    ELSE IF c \in {"skip:wide", "skip:wide-or-non-integer-symbol"} THEN Skip(c)
+    ELSE Fail("certificate:" \o c)
+
 TAsm ==
     /\ l <= Len(Rec) /\ l' = l + 1
-    /\ IF E.ev = "asm7" THEN Renderings
+    /\ IF E.ev = "cert" THEN Cert
+       ELSE IF E.ev = "asm7" THEN Renderings
        ELSE LET r == Assemble(E.prog) IN
             IF r.t = "skip" THEN Skip(r.why)
             ELSE \A k \in 1..Len(E.obs) : JudgeObs(r, E.obs[k], IF k = 1 THEN "" ELSE ":rendering")
